@@ -472,11 +472,11 @@ theorem Ok_activationBranch {ks ts : List String} {l : PyVal} {F : Flags} {look 
 
 theorem Ok_reluDelete {ks ts : List String} {l₀ l : PyVal}
     (hI : Eff ks ts l₀ l) (h1 : "alpha" ∈ ks) (h2 : "max_value" ∈ ks) (h3 : "negative_slope" ∈ ks)
-    (h4 : "threshold" ∈ ks) : Ok (reluDelete l) (fun l' => Eff ks ts l₀ l') := by
+    (h4 : "threshold" ∈ ks) {cn : String} : Ok (reluDelete cn l) (fun l' => Eff ks ts l₀ l') := by
   unfold reluDelete
-  wp_any
   split
   · exact Ok_delCfg hI h1
+  split
   · refine Ok_bind (Ok_conseq (Ok_delCfg hI h2) (fun l1 hl1 => ?_))
     refine Ok_bind (Ok_conseq (Ok_delCfg hl1 h1) (fun l2 hl2 => ?_))
     exact Ok_delCfg hl2 h4
@@ -484,10 +484,10 @@ theorem Ok_reluDelete {ks ts : List String} {l₀ l : PyVal}
     refine Ok_bind (Ok_conseq (Ok_delCfg hl1 h3) (fun l2 hl2 => ?_))
     exact Ok_delCfg hl2 h4
 
-theorem Ok_reluApply {ks ts : List String} {l₀ l q : PyVal} {F : Flags} {qn : String}
+theorem Ok_reluApply {ks ts : List String} {l₀ l q : PyVal} {F : Flags} {qn cn : String}
     (hI : Eff ks ts l₀ l) (h0 : "class_name" ∈ ts) (h1 : "alpha" ∈ ks) (h2 : "max_value" ∈ ks)
     (h3 : "negative_slope" ∈ ks) (h4 : "threshold" ∈ ks) (h5 : "activation" ∈ ks) :
-    Ok (reluApply F q qn l) (fun l' => Eff ks ts l₀ l') := by
+    Ok (reluApply F q qn cn l) (fun l' => Eff ks ts l₀ l') := by
   unfold reluApply
   refine Ok_bind (Ok_conseq (Ok_setCls hI h0) (fun l1 hl1 => ?_))
   refine Ok_bind (Ok_conseq (Ok_reluDelete hl1 h1 h2 h3 h4) (fun l2 hl2 => ?_))
